@@ -12,7 +12,35 @@ var fake *time.Time
 // SetFake fixes the clock (nil restores the real one).
 func SetFake(t *time.Time) { fake = t }
 
+// per-thread clocks: what the current thread reads as "now" until it sets another value. With
+// them a harness gives every operation its own instant, whatever the schedule, so that output
+// carrying the time can be compared with the same operation performed alone.
+var (
+	threadNow   = map[*vsched.Thread]time.Time{}
+	threadEpoch uint64
+)
+
+// SetThreadNow fixes the clock as the current thread sees it (for the whole process when no
+// scheduler is active).
+func SetThreadNow(t time.Time) {
+	cur := vsched.Cur()
+	if cur == nil {
+		tt := t
+		fake = &tt
+		return
+	}
+	if e := vsched.Epoch(); e != threadEpoch {
+		threadNow, threadEpoch = map[*vsched.Thread]time.Time{}, e
+	}
+	threadNow[cur] = t
+}
+
 func Now() time.Time {
+	if cur := vsched.Cur(); cur != nil && threadEpoch == vsched.Epoch() {
+		if t, ok := threadNow[cur]; ok {
+			return t
+		}
+	}
 	if fake != nil {
 		return *fake
 	}
